@@ -8,10 +8,14 @@ pub struct StepToI64Iterator {
 }
 
 impl StepToI64Iterator {
+    /// Creates a new iterator, `step_by` must be greater than zero
     pub fn new(start: i64, target: i64, step_by: i64) -> Self {
-        let steps_to_target = (target - start).abs() / step_by;
+        // The distance might not fit into an i64, so it's calculated with 128 bits.
+        let distance = (target as i128 - start as i128).abs();
+        // The number of steps is capped so that `steps_to_target + 1` can't overflow (see size_hint)
+        let steps_to_target = (distance / step_by as i128).min(i64::MAX as i128 - 1) as i64;
         let step_by = if target < start { -step_by } else { step_by };
-        let target = start + step_by * steps_to_target;
+        let target = (start as i128 + step_by as i128 * steps_to_target as i128) as i64;
 
         Self {
             target,
@@ -33,7 +37,9 @@ impl KotoIterator for StepToI64Iterator {
     fn next_back(&mut self) -> Option<KIteratorOutput> {
         if self.steps_to_target >= 0 {
             let result = self.target;
-            self.target -= self.step_by;
+            // Stepping back from the first value might leave the range of i64,
+            // the target isn't used again in that case.
+            self.target = self.target.wrapping_sub(self.step_by);
             self.steps_to_target -= 1;
             Some(KIteratorOutput::Value(result.into()))
         } else {
@@ -47,7 +53,8 @@ impl Iterator for StepToI64Iterator {
 
     fn next(&mut self) -> Option<Self::Item> {
         if self.steps_to_target >= 0 {
-            let result = self.target - self.step_by * self.steps_to_target;
+            let result =
+                (self.target as i128 - self.step_by as i128 * self.steps_to_target as i128) as i64;
             self.steps_to_target -= 1;
             Some(KIteratorOutput::Value(result.into()))
         } else {
